@@ -752,3 +752,46 @@ def dict_comprehension(I, st, e):
 def s_array_equal(I, st, args, kwargs):
     a, b = args
     return VBool(I.equal(a, b, st))
+
+
+@stub('sorted')
+def s_sorted(I, st, args, kwargs):
+    """sorted(L, key=f): a stable permutation of L ordered by key (ascending)."""
+    L = args[0]
+    if not isinstance(L, VSeq):
+        raise EngineError('sorted of non-sequence')
+    rev = kwargs.get('reverse')
+    if rev is not None and not z3.is_false(z3.simplify(I.truth(rev, st))):
+        raise EngineError('sorted(reverse=True)')
+    n = L.length
+    if L.arr is None:
+        return VSeq(L.ek, z3.IntVal(0), None)
+    f = kwargs.get('key')
+    es = sort_of(L.ek)
+
+    def key(term):
+        if f is None:
+            return term
+        if isinstance(f, VFunc) and f.name == 'get' and isinstance(f.self_value, VDict):
+            return f.self_value.val[term]
+        v = f.call(I, st, [from_term(term, L.ek)], {})
+        return to_term(v, v.kind)
+    i = z3.Int(fresh_name('i'))
+    i2 = z3.Int(fresh_name('i2'))
+    if isinstance(f, VFunc) and f.name == 'get' and isinstance(f.self_value, VDict):
+        # dict.get would return None for a missing key and the comparison would raise TypeError
+        I.oblige(st, 'key[sorted.key=dict.get]', z3.ForAll([i], z3.Implies(z3.And(i >= 0, i < n), f.self_value.dom[L.arr[i]])))
+    R = z3.Array(fresh_name('sorted'), z3.IntSort(), es)
+    pi = z3.Function(fresh_name('perm'), z3.IntSort(), z3.IntSort())
+    pinv = z3.Function(fresh_name('perminv'), z3.IntSort(), z3.IntSort())
+    I.assume(st, z3.ForAll([i], z3.Implies(z3.And(i >= 0, i < n), z3.And(pi(i) >= 0, pi(i) < n, R[i] == L.arr[pi(i)],
+                                                                      pinv(pi(i)) == i)), patterns=[R[i]]))
+    I.assume(st, z3.ForAll([i], z3.Implies(z3.And(i >= 0, i < n), z3.And(pinv(i) >= 0, pinv(i) < n, pi(pinv(i)) == i,
+                                                                      R[pinv(i)] == L.arr[i])), patterns=[pinv(i), L.arr[i]]))
+    I.assume(st, z3.ForAll([i, i2], z3.Implies(z3.And(i >= 0, i < i2, i2 < n), key(R[i]) <= key(R[i2])),
+                           patterns=[z3.MultiPattern(R[i], R[i2])]))
+    I.assume(st, z3.ForAll([i, i2], z3.Implies(z3.And(i >= 0, i < i2, i2 < n, key(R[i]) == key(R[i2])), pi(i) < pi(i2)),
+                           patterns=[z3.MultiPattern(pi(i), pi(i2))]))
+    r = VSeq(L.ek, n, R, flavor='list')
+    r.perm = (pi, pinv)
+    return r
